@@ -60,11 +60,12 @@ type CodecSpec struct {
 }
 
 type WritePlan struct {
-	Mode     string `json:"mode"`      // write | readfrom
-	Chunks   []int  `json:"chunks"`    // Write sizes, used cyclically; 0 = the rest
-	Pre      int    `json:"pre"`       // snappy only: bytes given to Write before ReadFrom
-	SrcChunk int    `json:"src_chunk"` // readfrom: the source yields at most this many bytes per Read (0 = all)
-	SrcEOF   bool   `json:"src_eof"`   // readfrom: the source returns its last bytes together with io.EOF
+	Mode     string `json:"mode"`           // write | readfrom
+	Chunks   []int  `json:"chunks"`         // Write sizes, used cyclically; 0 = the rest
+	Pre      int    `json:"pre"`            // snappy only: bytes given to Write before ReadFrom
+	Post     int    `json:"post,omitempty"` // snappy only: bytes given to Write after ReadFrom has returned (more data arrives before Close)
+	SrcChunk int    `json:"src_chunk"`      // readfrom: the source yields at most this many bytes per Read (0 = all)
+	SrcEOF   bool   `json:"src_eof"`        // readfrom: the source returns its last bytes together with io.EOF
 }
 
 type ReadPlan struct {
@@ -712,19 +713,28 @@ type wsess struct {
 	off, k  int
 	done    bool
 	twice   bool
+	rfDone  bool
 }
 
 func (s *wsess) step() *failure {
 	p := s.plan
-	if p.Mode == "readfrom" && s.off >= p.Pre {
+	if p.Mode == "readfrom" && s.off >= p.Pre && !s.rfDone {
 		if rf, ok := s.w.(io.ReaderFrom); ok {
-			rest := s.payload[s.off:]
+			end := len(s.payload)
+			if p.Post > 0 && end-p.Post > s.off {
+				end -= p.Post
+			}
+			rest := s.payload[s.off:end]
 			n, err := rf.ReadFrom(&chunkReader{b: rest, chunk: p.SrcChunk, eofWithData: p.SrcEOF})
 			if err != nil || n != int64(len(rest)) {
 				return failf("write/"+s.tag, "stream %d: ReadFrom of %d bytes returned (%d, %v)", s.idx, len(rest), n, err)
 			}
-			s.off = len(s.payload)
-			return s.close()
+			s.off = end
+			s.rfDone = true
+			if s.off == len(s.payload) {
+				return s.close()
+			}
+			return nil
 		}
 	}
 	n := 0
@@ -1265,6 +1275,9 @@ func normalize(c Case) Case {
 		if c.Codec.Name != "snappy" || s.W.Pre < 0 || s.W.Mode != "readfrom" {
 			s.W.Pre = 0
 		}
+		if c.Codec.Name != "snappy" || s.W.Post < 0 || s.W.Mode != "readfrom" {
+			s.W.Post = 0
+		}
 		if s.W.Pre >= s.Payload.Len {
 			s.W.Pre = s.Payload.Len - 1
 		}
@@ -1645,6 +1658,9 @@ func genStream(t *rapid.T, label string, cs CodecSpec, huge bool) Stream {
 		s.W.SrcEOF = rapid.Bool().Draw(t, label+"_wsrceof")
 		if cs.Name == "snappy" && rapid.Bool().Draw(t, label+"_wpre?") {
 			s.W.Pre = rapid.SampledFrom([]int{1, 100, 31744, 31745, 40000}).Draw(t, label+"_wpre")
+		}
+		if cs.Name == "snappy" && rapid.IntRange(0, 2).Draw(t, label+"_wpost?") == 0 {
+			s.W.Post = rapid.SampledFrom([]int{1, 100, 31745, 40000}).Draw(t, label+"_wpost")
 		}
 	}
 	s.W.Chunks = genSizes(t, label+"_chunks", 0)
